@@ -452,7 +452,7 @@ SPECS["C01"] = ("""property C01: event JSON parsing is faithful to an independen
    of the grammar (whitespace, alternative escape spellings of known strings) "parse t = enc_event (denote t)"
    is not proved in Coq; it is decided per run by the differential check against python's json module (member orders, whitespace, escape
    spellings, unknown members, boundaries) and against the parser model (exact).""",
-  CODIMP + "\nFrom Pocket Require Import EscapeRoundTrip JsonRoundTrip JsonSkip EventAnyOrder.", [
+  CODIMP + "\nFrom Pocket Require Import EscapeRoundTrip JsonRoundTrip JsonSkip EventAnyOrder Spelling.", [
   ("C01_created_at_value_partial",
    "forall l, read_u64 l = let '(ds, rest) := span_digits l in\n    match ds with [] => Err EJson | _ => if num_of ds <=? 18446744073709551615 then Ok (num_of ds, rest) else Err EJson end",
    "read_u64_spec", "digit run of any length: its value, or an error when >= 2^64"),
@@ -471,6 +471,12 @@ SPECS["C01"] = ("""property C01: event JSON parsing is faithful to an independen
   ("C01_any_order_unknown_members_and_white_space",
    "forall e tj cj w0 ms tail out, wf_event_json e -> tags_as_json (e_tags e) = Ok tj -> json_escape (e_content e) = Ok cj ->\n    wsb w0 -> Forall wm_ok ms -> NoDup (known (map wm_m ms)) -> (forall k, In k (known (map wm_m ms))) -> event_size e <= len out ->\n    event_from_json (event_text_w e tj cj w0 ms tail) out\n    = Ok (len (event_text_w e tj cj w0 ms tail) - len tail, enc_event e, enc_event e ++ drop (event_size e) out)",
    "event_any_order_ws", "the same with ANY AMOUNT OF WHITE SPACE (space, tab, LF, CR) before the opening brace and, for every member known or unknown, before its opening quote, between its name and the colon, between the colon and the value, and between the value and the following comma or closing brace; the consumed count is the length of all of that. (White space INSIDE the tags array is not covered by a theorem; it is compared per run.)"),
+  ("C01_any_spelling_of_every_string",
+   "forall e tes cj w0 ms tail out, wf_event_json e -> Forall2 (Forall2 escd) (e_tags e) tes -> escd (e_content e) cj ->\n    wsb w0 -> Forall wm_ok ms -> NoDup (known (map wm_m ms)) -> (forall k, In k (known (map wm_m ms))) -> event_size e <= len out ->\n    event_from_json (event_text_s e tes cj w0 ms tail) out\n    = Ok (len (event_text_s e tes cj w0 ms tail) - len tail, enc_event e, enc_event e ++ drop (event_size e) out)",
+   "event_any_spelling", "the most general parse theorem: the tag strings spelled tes and the content spelled cj in ANY spelling related to them by escd - the relation all parse lemmas rest on: json_unescape reads the spelling back as the string and the string skipper skips it, whatever follows - with the members in any order, unknown members and white space as before"),
+  ("C01_every_accepted_spelling_is_a_spelling",
+   "forall cps ps, spelling cps ps -> escd (utf8_of cps) (concat ps)",
+   "spelling_escd", "spelling cps ps: each Unicode scalar value of cps written literally (when it is not a quote, backslash or control character), as a two-character escape, or as \\uXXXX with hex digits in either case (below 65536, not a surrogate), mixed freely per character - these are all the spellings the unescaper accepts. So C01_any_spelling_of_every_string covers every escape spelling of every tag string and of the content"),
   ("C01_unknown_member_is_skipped",
    "forall key v K, skippable_str key -> jwf v -> jdepth v <= 128 -> vfollow K ->\n    burn_member (key ++ 34 :: 58 :: jtext v ++ K) = Ok K",
    "burn_member_skips", "the skipper: key, colon and a value tree of any shape (strings, numbers incl. exponents with a plus sign, true/false/null, arrays, objects) are consumed exactly, whatever follows; the fuel the parser supplies (twice the text length) always suffices"),
@@ -508,6 +514,48 @@ Proof.
   - cbn [known]. repeat constructor; cbn; intuition discriminate.
   - intros k. destruct k; cbn; auto 8.
   - eexists _, _. split; [vm_compute; reflexivity|split; [vm_compute; reflexivity|vm_compute; reflexivity]].
+Qed.
+(* non-vacuity of the any-spelling theorem: the content  h LF quote backslash e-acute  spelled  u0068 backslash-n backslash-quote
+   backslash-backslash u00E9 (upper-case hex), the tag strings  e  and  [ quote ]  spelled  u0065  and  [ u0022 ] *)
+Example C01_spelling_example :
+  let e := mkE (repeat 1 32) (repeat 2 32) (repeat 3 64) 1 1700000000 [[[101]; [91; 34; 93]]; []; [[]]] [104; 10; 34; 92; 195; 169] in
+  let cj := [92; 117; 48; 48; 54; 56; 92; 110; 92; 34; 92; 92; 92; 117; 48; 48; 69; 57] in
+  let tes := [[[92; 117; 48; 48; 54; 53]; [91; 92; 117; 48; 48; 50; 50; 93]]; []; [[]]] in
+  let ms := [mkWm (EK KContent) [32] [] [32] []; no_ws (EK KSig); no_ws (EK KTags); no_ws (EK KId); no_ws (EK KKind); no_ws (EK KPk); no_ws (EK KCreated)] in
+  Forall2 (Forall2 escd) (e_tags e) tes /\\ escd (e_content e) cj /\\
+  event_from_json (event_text_s e tes cj [] ms [9; 9]) (repeat 170 (N.to_nat (event_size e) + 3))
+  = Ok (len (event_text_s e tes cj [] ms [9; 9]) - 2, enc_event e, enc_event e ++ [170; 170; 170]).
+Proof.
+  cbv zeta. cbn [e_tags e_content].
+  assert (U : forall c x3 x2 x1 x0 d3 d2 d1 d0, hex_digit_value x3 = Some d3 -> hex_digit_value x2 = Some d2 ->
+            hex_digit_value x1 = Some d1 -> hex_digit_value x0 = Some d0 -> c = d3 * 4096 + d2 * 256 + d1 * 16 + d0 ->
+            (c < 55296 \\/ 57344 <= c) -> spell1 c [92; 117; x3; x2; x1; x0]) by (intros; eapply SpU4; eassumption).
+  assert (L : forall c, scalar c -> is_safe_char c = true -> spell1 c (enc c)) by exact SpLit.
+  split; [|split].
+  - apply Forall2_cons; [|apply Forall2_cons; [|apply Forall2_cons; [|apply Forall2_nil]]].
+    + apply Forall2_cons; [|apply Forall2_cons; [|apply Forall2_nil]].
+      * change [101] with (utf8_of [101]). change [92; 117; 48; 48; 54; 53] with (concat [[92; 117; 48; 48; 54; 53]]).
+        apply spelling_escd. apply Forall2_cons; [|apply Forall2_nil]. eapply (U 101 48 48 54 53 0 0 6 5); try reflexivity. lia.
+      * change [91; 34; 93] with (utf8_of [91; 34; 93]).
+        change [91; 92; 117; 48; 48; 50; 50; 93] with (concat [[91]; [92; 117; 48; 48; 50; 50]; [93]]).
+        apply spelling_escd. apply Forall2_cons; [|apply Forall2_cons; [|apply Forall2_cons; [|apply Forall2_nil]]].
+        -- apply (L 91); [split; lia|reflexivity].
+        -- eapply (U 34 48 48 50 50 0 0 2 2); try reflexivity. lia.
+        -- apply (L 93); [split; lia|reflexivity].
+    + apply Forall2_nil.
+    + apply Forall2_cons; [|apply Forall2_nil].
+      change (escd (utf8_of []) (concat (@nil bytes))). apply spelling_escd. apply Forall2_nil.
+  - change [104; 10; 34; 92; 195; 169] with (utf8_of [104; 10; 34; 92; 233]).
+    change [92; 117; 48; 48; 54; 56; 92; 110; 92; 34; 92; 92; 92; 117; 48; 48; 69; 57]
+      with (concat [[92; 117; 48; 48; 54; 56]; [92; 110]; [92; 34]; [92; 92]; [92; 117; 48; 48; 69; 57]]).
+    apply spelling_escd.
+    apply Forall2_cons; [|apply Forall2_cons; [|apply Forall2_cons; [|apply Forall2_cons; [|apply Forall2_cons; [|apply Forall2_nil]]]]].
+    + eapply (U 104 48 48 54 56 0 0 6 8); try reflexivity. lia.
+    + apply (SpShort 110 10). reflexivity.
+    + apply (SpShort 34 34). reflexivity.
+    + apply (SpShort 92 92). reflexivity.
+    + eapply (U 233 48 48 69 57 0 0 14 9); try reflexivity. lia.
+  - vm_compute. reflexivity.
 Qed.
 (* non-vacuity with white space: before the brace, around every colon, after every value; unknown members too *)
 Example C01_ws_example :
@@ -681,7 +729,7 @@ SPECS["C02"] = ("""property C02: event binary <-> JSON round trip is lossless an
    enc_event e and every accessor returns the field).  Losslessness through json_escape/json_unescape
    and canonicity across texts are decided per run by the differential check (5 texts per event,
    3 buffer fills, from_parts, python json on as_json's output, byte equality).""",
-  CODIMP + "\nFrom Pocket Require Import Ctor CtorProofs Access EscapeRoundTrip JsonRoundTrip JsonSkip EventAnyOrder.", [
+  CODIMP + "\nFrom Pocket Require Import Ctor CtorProofs Access EscapeRoundTrip JsonRoundTrip JsonSkip EventAnyOrder Spelling.", [
   ("C02_hex_roundtrip_partial", "forall bs, wf_bytes bs -> read_hex (write_hex bs) (len bs) = Ok bs", "read_write_hex", ""),
   ("C02_binary_form_is_function_of_fields_partial",
    "forall e out, wf_aevent e -> fits_event e -> event_size e <= len out ->\n    exists b, event_from_parts e out = Ok b /\\ take (event_size e) b = enc_event e /\\ drop (event_size e) b = drop (event_size e) out /\\\n              len b = len out /\\ ev_delineate b = Ok (enc_event e) /\\ event_accessors_ok e (enc_event e)",
@@ -695,6 +743,9 @@ SPECS["C02"] = ("""property C02: event binary <-> JSON round trip is lossless an
   ("C02_binary_form_independent_of_white_space",
    "forall e tj cj w0 ms tail w0' ms' tail' out, wf_event_json e -> tags_as_json (e_tags e) = Ok tj -> json_escape (e_content e) = Ok cj ->\n    wsb w0 -> Forall wm_ok ms -> NoDup (known (map wm_m ms)) -> (forall k, In k (known (map wm_m ms))) ->\n    wsb w0' -> Forall wm_ok ms' -> NoDup (known (map wm_m ms')) -> (forall k, In k (known (map wm_m ms'))) ->\n    event_size e <= len out ->\n    exists c c', event_from_json (event_text_w e tj cj w0 ms tail) out = Ok (c, enc_event e, enc_event e ++ drop (event_size e) out) /\\\n                 event_from_json (event_text_w e tj cj w0' ms' tail') out = Ok (c', enc_event e, enc_event e ++ drop (event_size e) out)",
    "event_ws_independent", "CANONICITY across member order, unknown members AND white space between the tokens of the object: any two such texts of one event parse to byte-identical binary events"),
+  ("C02_binary_form_independent_of_spelling",
+   "forall e tes cj w0 ms tail tes' cj' w0' ms' tail' out, wf_event_json e ->\n    Forall2 (Forall2 escd) (e_tags e) tes -> escd (e_content e) cj ->\n    wsb w0 -> Forall wm_ok ms -> NoDup (known (map wm_m ms)) -> (forall k, In k (known (map wm_m ms))) ->\n    Forall2 (Forall2 escd) (e_tags e) tes' -> escd (e_content e) cj' ->\n    wsb w0' -> Forall wm_ok ms' -> NoDup (known (map wm_m ms')) -> (forall k, In k (known (map wm_m ms'))) ->\n    event_size e <= len out ->\n    exists c c', event_from_json (event_text_s e tes cj w0 ms tail) out = Ok (c, enc_event e, enc_event e ++ drop (event_size e) out) /\\\n                 event_from_json (event_text_s e tes' cj' w0' ms' tail') out = Ok (c', enc_event e, enc_event e ++ drop (event_size e) out)",
+   "event_spelling_independent", "CANONICITY, general form: any two texts of one event - whatever escape spelling each tag string and the content has in either (Spelling.v), whatever the member order, unknown members and white space between the tokens of the object - parse to byte-identical binary events"),
   ("C02_tags_json_roundtrip",
    "forall ts tj tail F, JsonRoundTrip.valid_tags ts -> fits_tags ts -> tags_size ts <= len F ->\n    tags_as_json ts = Ok tj -> tags_from_json (tj ++ tail) F = Ok (len tj, enc_tags ts)",
    "tags_json_roundtrip", "Tags::from_json after Tags::as_json, whatever follows the text"),
